@@ -7,7 +7,10 @@
    Granularity: one transition = one external action followed by running the event loop until it is
    quiescent (no ready handle, no due timer).  Virtual time in milliseconds (Z) relative to the instant
    the service object is built; [OAdv dt] moves the clock to every due timer in turn (as a sleeping
-   loop does) and then to now+dt.
+   loop does) and then to now+dt.  [OLate dt v x] is the one schedule in which an action meets overdue timers:
+   the clock moves by dt while the loop does not run, the assignment runs first (its callback was already in the
+   ready queue; _run_once appends the due timers behind it) and the timers that are due fire in the same
+   iteration - one quiescence run.
 
    The model follows the REPAIRED code (proposed/C15/D11.diff: the deferred event is armed with
    call_later(delay, <sync callback>) which clears the flag and triggers; proposed/C15/D12.diff: the
@@ -228,6 +231,9 @@ Inductive op :=
 | OUnsub (sid : sidref)                             (* UNSUBSCRIBE request *)
 | OSet (v : nat) (x : N)                            (* state_variable(v).value = x *)
 | OAdv (dt : N)                                     (* the clock advances by dt ms *)
+| OLate (dt : N) (v : nat) (x : N)                  (* the clock advances by dt ms while the loop does not run, then
+                                                       state_variable(v).value = x is processed BEFORE the timers
+                                                       that became due (they fire in the same loop iteration) *)
 | ODeliver (k : nat) (outcome : N)                  (* k-th outstanding NOTIFY (ordered by SID) completes: 0 = transport error, else status *)
 | OJump (sid : N) (key : N).                        (* instrumentation: the subscriber's event key is set to key *)
 
@@ -375,6 +381,19 @@ Fixpoint advance (fuel : nat) (c : cfg) (st : state) (target : Z) : state * list
       end
   end.
 
+(* the assignment and the timers that fire behind it belong to ONE quiescence run: the triggers and the NOTIFY
+   requests of the parts, in order *)
+Definition merge_runs (t : Z) (rs : list run) : list run :=
+  mk_runs t (flat_map r_trig rs) (flat_map r_notes rs).
+
+(* the clock moves on without the loop running; the assignment is processed at the new clock value exactly
+   as [do_set] does (a pending deferred event absorbs the change, whether its timer is overdue or not); then
+   the timers that are due at that clock value fire as in one pass of [advance] that does not move the clock *)
+Definition do_late (c : cfg) (st : state) (dt : N) (i : nat) (x : N) : state * step_obs :=
+  let '(st1, ob) := do_set c (set_now st (now st + Z.of_N dt)) i x in
+  let '(st2, rs2) := advance (S (length (timers st1))) c st1 (now st1) in
+  (st2, (fst ob, merge_runs (now st1) (snd ob ++ rs2))).
+
 Fixpoint remove_nth {A} (k : nat) (l : list A) : list A :=
   match l, k with
   | [], _ => []
@@ -389,6 +408,7 @@ Definition step (c : cfg) (st : state) (o : op) : state * step_obs :=
   | OSet i x => do_set c st i x
   | OAdv dt =>
       let '(st1, rs) := advance (S (length (timers st))) c st (now st + Z.of_N dt) in (st1, (SNone, rs))
+  | OLate dt i x => do_late c st dt i x
   | ODeliver k _ =>
       match nth_error (outs st) k with
       | Some x => (set_outs st (remove_nth k (outs st)), (SDeliv (fst x) (snd x), []))
